@@ -52,6 +52,39 @@ func specTest(t *testing.T, id string) {
 	runSpec(t, s)
 }
 
+// TestC02RealFile re-runs the C02 property with every file call mirrored on a
+// real os.File (in $TMPDIR, removed after each case): reads and Stat are
+// answered by both and compared, so that nothing the checks conclude depends
+// on a quirk of the in-memory file (EOF semantics, short reads, truncation).
+// A divergence is a harness defect and is reported as such, not as a violation.
+func TestC02RealFile(t *testing.T) {
+	s := Specs["C02"]
+	st := NewStats("C02", "real-file phase: the C02 histories with every StoreFile call mirrored on a real os.File and the answers of both compared (harness self-check of the in-memory file model); same durability oracle.", s.Assumptions)
+	defer func() {
+		if p := outPath(); p != "" {
+			st.Write(p)
+		}
+	}()
+	gen := GenCase(s.Profile)
+	opts := s.Opts
+	opts.RealFile = true
+	rapid.Check(t, func(rt *rapid.T) {
+		c := gen.Draw(rt, "case")
+		c.Cfg.Mem = false
+		v, ev := guarded("C02", c, func() (*Violation, map[string]int) { return Run(c, opts) })
+		if v != nil && v.Sig == "harness-memfile-diverges" {
+			p := saveFailure("C02", c, v)
+			rt.Fatalf("HARNESS-DEFECT (not a violation of the property) %s case=%s", v.Msg, p)
+		}
+		if v != nil {
+			p := saveFailure("C02", c, v)
+			rt.Fatalf("VIOLATION-CANDIDATE property=C02 sig=%q case=%s\n%s\ncase: %s", v.Sig, p, v.Error(), c.String())
+		}
+		ev["real_file_case"]++
+		st.Note(c.Hash(), ev, s.NonTrivial(&c, ev), func() string { return c.String() })
+	})
+}
+
 func TestC01(t *testing.T) { specTest(t, "C01") }
 func TestC02(t *testing.T) { specTest(t, "C02") }
 func TestC04(t *testing.T) { specTest(t, "C04") }
